@@ -9,6 +9,7 @@ pub mod refspec;
 pub mod ctx;
 pub mod hang;
 pub mod rng;
+pub mod realconn;
 pub mod sess;
 pub mod transport;
 
